@@ -20,6 +20,8 @@ from vlib import Inconclusive
 # QF1009 (== on time.Time -> Equal) and QF1010 (print []byte as string) are documented as
 # changing behaviour on purpose; they are not "equivalent rewrites" and have no template.
 
+NOT_EQUIVALENT = {"QF1009", "QF1010"}
+
 PARTNER = 3   # index of the second variable of compound operands
 CTXV = 4      # index of the context variable
 
@@ -355,10 +357,10 @@ def run_behaviour(ctx, helper, C16, only=None):
     if only:
         cases = [c for c in cases if c["shape"] == only["shape"]]
     elif ctx.quick:
-        # all statement shapes and a seeded half of the large boolean families
+        # all statement shapes and a seeded third of the large boolean families
         big = [c for c in cases if c["shape"].startswith(("qf1001", "s1002", "s1003"))]
         rest = [c for c in cases if c not in big]
-        cases = sorted(rest + vlib.sample(ctx, big, len(big) // 2), key=lambda c: (c["shape"], c["ctx"], c["effects"]))
+        cases = sorted(rest + vlib.sample(ctx, big, len(big) // 3), key=lambda c: (c["shape"], c["ctx"], c["effects"]))
     root = os.path.join(ctx.tmp("beh"), "mod")
     layout, inputs = generate(ctx, cases, kinds, root)
     env = C16.toolchain_env()
@@ -378,7 +380,7 @@ def run_behaviour(ctx, helper, C16, only=None):
     per_func = collections.defaultdict(list)   # case idx -> [(fix record, meta)]
     for fx, meta in zip(art.fixes, art.fmeta):
         cat = meta["diag"]["cat"]
-        if not re.match(r"(S1|QF1)\d+$", cat):
+        if not re.match(r"(S1|QF1)\d+$", cat) or cat in NOT_EQUIVALENT:
             continue
         fname = meta["diag"]["pos"]["file"]
         line = meta["diag"]["pos"]["line"]
